@@ -1,7 +1,7 @@
 (* C15 -- independent instances may be used concurrently from different threads.
    Property theorems only: statement + exact + Print Assumptions. *)
 From Coq Require Import List ZArith String Bool.
-From LJT Require Import model.Threads model.Globals gen.GenGlobals proofs.ThreadsProofs proofs.GlobalsProofs.
+From LJT Require Import model.Threads model.Globals gen.GenGlobals gen.GenGlobalsBin proofs.ThreadsProofs proofs.GlobalsProofs proofs.GlobalsBinProofs.
 Import ListNotations.
 
 (* (1) noninterference -- generic: ALL programs, ALL interleavings, unbounded.
@@ -33,6 +33,22 @@ Theorem C15_globals_are_benign :
   asm_writable_data = [].
 Proof. exact globals_are_benign_proof. Qed.
 Print Assumptions C15_globals_are_benign.
+
+(* (2b) the static-storage part of "the C text's footprint is what the inventory says" as a CHECKED tie: the AST
+   inventory agrees with the data symbols of the archives built from the same tree (readelf, regenerated every
+   run, incl. the NASM objects): every binary data symbol is an inventory entry of a compatible class, every
+   non-empty writable section of every member consists of those named symbols, and the non-const objects of the
+   library are EXACTLY the ten listed ones, each with a justification made of checked facts (thread-local in AST
+   and in .tdata; never written in the AST and placed in a read-only section by the compiler; never written in
+   the AST, writable only for load-time relocation; dummy buffer with dummy_ok use sites). *)
+Theorem C15_statics_tie :
+  (forall b, In b bin_symbols -> bin_sym_ok b = true) /\
+  (forall g, In g inventory -> inv_entry_in_bin g = true) /\
+  (forall w, In w bin_wsections -> wsec_ok w = true) /\
+  nonconst_table = expected_nonconst /\
+  (forall g, In g inventory -> g_cls g <> Const -> justify g <> J_None).
+Proof. exact statics_tie_proof. Qed.
+Print Assumptions C15_statics_tie.
 
 (* (3) environment / process-global libc state: boundary fact *)
 Theorem C15_env_sites :
